@@ -88,6 +88,9 @@ func verifC15Run(hosts []*verifHost, order []int, streaming bool) *results.Resul
 	for _, i := range order {
 		aggregateSingleResult(ctx, hosts[i].build(), final, stmt, ifaceMap, rowMap, send)
 	}
+	// the statement is shared by every partial result and the final one: finalising a (capped) partial result
+	// must not change the limit the final result is cut to
+	v.Assert(stmt.NumResults == 1000, "streaming partial results leave the statement's row limit unchanged")
 	finalizeResult(ctx, final, stmt, rowMap, stmt.NumResults)
 	return final
 }
